@@ -58,6 +58,7 @@ def big_supports():
 
 
 def instances(tier, seed):
+    yield {"kind": "hand"}
     batch = list(big_supports())
     yield {"kind": "jdd", "items": batch}
     batch = []
@@ -243,8 +244,50 @@ def check_net(res, tset, N, pl, variant=None):
     res.flags.add("network")
 
 
+HAND_MATRIX_CLASSES = [
+    # excess classes whose digits concatenate to the same string ((1,12) / (11,2)), two-digit degrees, zeros
+    [(1, 12), (11, 2), (0, 3)],
+    [(10, 1), (1, 1), (1, 0), (0, 10)],
+    [(2, 2), (22, 0), (2, 20)],
+]
+
+
+def check_hand_matrices(res):
+    """Row sums of hand-written mixing matrices over excess classes with large degrees."""
+    from gcmpy.tools.joint_excess_joint_degree_matrices import JointExcessJointDegreeMatrices
+    from gcmpy.tools.joint_excess_from_ejk import JointExcessFromEjk
+    from gcmpy.names.tools_names import ToolsNames as TN
+    for classes in HAND_MATRIX_CLASSES:
+        n = len(classes)
+        w = {}
+        for i, a in enumerate(classes):
+            for j, b in enumerate(classes):
+                w[a + b] = Fraction(1 + (i + 1) * (j + 1) % 4 + (1 if i == j else 0))
+        for a in classes:      # symmetrise
+            for b in classes:
+                w[a + b] = w[b + a] = (w[a + b] + w[b + a]) / 2
+        tot = sum(w.values())
+        ejk = {k: float(v / tot) for k, v in w.items()}
+        want = {a: sum(w[a + b] for b in classes) / tot for a in classes}
+        res.executions += 1
+        res.transitions += 1
+        res.states += 1
+        try:
+            m = JointExcessJointDegreeMatrices({TN.EJKS: {"x": dict(ejk), "y": dict(ejk)}, TN.EDGE_NAMES: ["x", "y"]})
+            qks = JointExcessFromEjk.get_excess_joint_distributions(m)
+            bad = same_dist(qks.get("x", {}), want) or same_dist(qks.get("y", {}), want)
+        except Exception as e:
+            bad = f"raised {e!r}"
+        if bad:
+            res.violation("C14:row-sums-hand-matrix", f"excess classes {classes}: {bad}", {"kind": "hand"})
+        res.flags.add("hand-matrices")
+
+
 def run_instance(inst, tier):
     res = Result()
+    if inst["kind"] == "hand":
+        check_hand_matrices(res)
+        return res
     if inst["kind"] == "jdd":
         for t, keys in inst["items"]:
             keys = tuple(tuple(k) for k in keys)
@@ -261,6 +304,8 @@ def run_instance(inst, tier):
             check_net(res, inst["tset"], inst["N"], pl)
             if len(pl) <= 4:
                 check_net(res, inst["tset"], inst["N"], pl, "reversed-insertion")
+            if len(pl) <= 2:
+                check_net(res, inst["tset"], inst["N"], pl, "string-labels")
             if len(res.violations) >= 10:
                 return res
     return res
@@ -276,7 +321,9 @@ def finalize(agg, tier):
 def replay(v):
     inst = v["instance"]
     r = Result()
-    if "keys" in inst:
+    if inst.get("kind") == "hand":
+        check_hand_matrices(r)
+    elif "keys" in inst:
         check_jdd(r, inst["t"], tuple(tuple(k) for k in inst["keys"]), tuple(inst["weights"]))
     else:
         tops = netgen.TOPOLOGY_SETS[inst["tset"]]
